@@ -100,6 +100,41 @@ type imgCase struct {
 	EP     string    `json:"ep"`  // v1 | tarball | squashed | raw
 	Cfg    int       `json:"cfg"` // index into the entry point's configuration table
 	Layers [][]entry `json:"layers"`
+	// Dir selects how the unpack target is spelled ("" = S/out, absolute and clean; anything else =
+	// a spelling of the nested target S/outer/out, see targetSpellings).
+	Dir string `json:"dir,omitempty"`
+	// Shape selects the image metadata ("" = one history entry per layer, see buildImage).
+	Shape string `json:"shape,omitempty"`
+}
+
+// targetSpellings: the nested target S/outer/out handed to the unpacker in cleaned and uncleaned,
+// absolute and working-directory-relative spellings.
+var targetSpellings = []string{"nested", "trailing-slash", "double-slash", "dot-segment", "dotdot-segment", "rel-cwd", "rel-cwd-dot-slash"}
+
+// target returns the string handed to the unpacker, the clean absolute path of the target and
+// its path relative to R.
+func (sb *sandbox) target(spelling string) (arg, abs, rel string) {
+	if spelling == "" {
+		return sb.dir("out"), sb.dir("out"), chain + "/out"
+	}
+	abs, rel = sb.dir("outer/out"), chain+"/outer/out"
+	switch spelling {
+	case "trailing-slash":
+		arg = abs + "/"
+	case "double-slash":
+		arg = sb.dir("outer") + "//out"
+	case "dot-segment":
+		arg = sb.dir("outer") + "/./out"
+	case "dotdot-segment":
+		arg = abs + "/../out"
+	case "rel-cwd": // the working directory is S/cwd
+		arg = "../outer/out"
+	case "rel-cwd-dot-slash":
+		arg = "./../outer/out/"
+	default:
+		arg = abs
+	}
+	return
 }
 
 func (c imgCase) String() string {
@@ -111,7 +146,14 @@ func (c imgCase) String() string {
 		}
 		ls = append(ls, "["+strings.Join(es, ", ")+"]")
 	}
-	return fmt.Sprintf("%s cfg=%s layers=%s", c.EP, cfgName(c.EP, c.Cfg), strings.Join(ls, " + "))
+	extra := ""
+	if c.Dir != "" {
+		extra += " target=" + c.Dir
+	}
+	if c.Shape != "" {
+		extra += " image=" + c.Shape
+	}
+	return fmt.Sprintf("%s cfg=%s%s layers=%s", c.EP, cfgName(c.EP, c.Cfg), extra, strings.Join(ls, " + "))
 }
 
 // ---------------------------------------------------------------- configurations
@@ -243,7 +285,49 @@ func (l *rawLayer) Uncompressed() (io.ReadCloser, error) {
 func (l *rawLayer) Size() (int64, error)                { return int64(len(l.b)), nil }
 func (l *rawLayer) MediaType() (types.MediaType, error) { return types.DockerUncompressedLayer, nil }
 
-func buildImage(layers [][]entry) (v1.Image, bool) {
+// imageShapes: metadata variants. "no-layers" and "history-only" ignore the layer list.
+//
+//	no-layers             empty.Image
+//	history-only          no layers, two empty_layer history entries (ENV/CMD on scratch)
+//	history-missing       layers without any history
+//	history-empty-entries an empty_layer entry before and after the layers' own entries
+//	history-extra         two more non-empty history entries than layers
+func buildImage(layers [][]entry, shape string) (v1.Image, bool) {
+	img, ok := buildLayers(layers, shape)
+	if !ok || shape == "" {
+		return img, ok
+	}
+	cf, err := img.ConfigFile()
+	if err != nil {
+		return nil, false
+	}
+	cf = cf.DeepCopy()
+	meta := v1.History{CreatedBy: "ENV c06=1", EmptyLayer: true}
+	switch shape {
+	case "no-layers":
+		return img, true
+	case "history-only":
+		cf.History = []v1.History{meta, meta}
+	case "history-missing":
+		cf.History = nil
+	case "history-empty-entries":
+		cf.History = append(append([]v1.History{meta}, cf.History...), meta)
+	case "history-extra":
+		cf.History = append(cf.History, v1.History{CreatedBy: "RUN x"}, v1.History{CreatedBy: "RUN y"})
+	default:
+		return nil, false
+	}
+	img, err = mutate.ConfigFile(img, cf)
+	if err != nil {
+		return nil, false
+	}
+	return img, true
+}
+
+func buildLayers(layers [][]entry, shape string) (v1.Image, bool) {
+	if shape == "no-layers" || shape == "history-only" {
+		return empty.Image, true
+	}
 	var ls []v1.Layer
 	for _, es := range layers {
 		b, ok := layerTar(es)
@@ -381,7 +465,7 @@ func splitChanges(chs []change, designated string) (inside, outside []change) {
 // its seeded state.
 func runImageCase(sb *sandbox, c imgCase) caseResult {
 	var res caseResult
-	img, ok := buildImage(c.Layers)
+	img, ok := buildImage(c.Layers, c.Shape)
 	if !ok {
 		res.Skipped = true
 		return res
@@ -428,13 +512,13 @@ func runImageCase(sb *sandbox, c imgCase) caseResult {
 			must(os.WriteFile(tarPath, b, 0o644))
 			base = withFile(sb.base, chain+"/in/image.tar", tarPath)
 		}
-		out := sb.dir("out")
+		arg, out, outRel := sb.target(c.Dir)
 		var rerr error
 		p, stack := ev.Recover(func() {
 			if c.EP == "raw" {
-				rerr = u.UnpackSquashedFromTarball(out, tarPath)
+				rerr = u.UnpackSquashedFromTarball(arg, tarPath)
 			} else {
-				rerr = u.UnpackSquashed(out, img)
+				rerr = u.UnpackSquashed(arg, img)
 			}
 		})
 		if p != nil {
@@ -443,7 +527,7 @@ func runImageCase(sb *sandbox, c imgCase) caseResult {
 			res.Err = rerr.Error()
 		}
 		after := snapshot(sb.R)
-		inside, outside := splitChanges(diff(base, after), chain+"/out")
+		inside, outside := splitChanges(diff(base, after), outRel)
 		res.Wrote = len(inside) > 0
 		report(classify(c.EP, c, outside, "after-return"))
 		if esc := escapingLinks(out); len(esc) > 0 {
@@ -451,8 +535,11 @@ func runImageCase(sb *sandbox, c imgCase) caseResult {
 		}
 		hostCheck()
 		if !dirty {
-			if len(inside) > 0 {
+			if len(inside) > 0 && c.Dir == "" {
 				sb.resetDir("out")
+			} else if len(inside) > 0 {
+				sb.resetDir("outer")
+				must(os.Mkdir(sb.dir("outer/out"), 0o755))
 			}
 			if c.EP == "raw" {
 				must(os.Remove(tarPath))
